@@ -78,6 +78,9 @@ R04.7 per-mock options (stub-impl, skip-ensure, with-resets) are read from the i
 	c.Rule("R04.8", 500, "")
 
 	walkTemplate(c, "matryer", "body", func(p *TPath) {
+		if usesTypeParamTypes(p.Shape) {
+			return
+		}
 		switch {
 		case p.Err != nil:
 			c.Fail("R04.0", "matryer|eval|"+p.Err.err.Error(), p.E.nodePos(p.Err.node), "template path cannot be evaluated: "+p.Err.err.Error()+" ["+p.Env()+"]")
@@ -113,6 +116,7 @@ R04.7 per-mock options (stub-impl, skip-ensure, with-resets) are read from the i
 			c.OK("R04.8", "matryer", "", p.Env())
 		}
 	})
+	accessorTableGuard(c, "R04.9")
 }
 
 func matryerMethodRules(c *Ctx, p *TPath) {
